@@ -236,6 +236,7 @@ func (g *gen) scenario(id, k int) {
 func (g *gen) start(id int, kind string) {
 	w := g.w
 	w.Now = g.baseNow + 5
+	w.ColdCache() // see world.ColdCache: no cache contents inherited from sibling forks
 	g.beginBlock(g.base, 1)
 	g.allocs = append([]*allocInfo{}, g.baseAllocs...)
 	g.readKeys, g.readKeySet = nil, map[string]bool{}
